@@ -20,6 +20,11 @@ import (
 func init() {
 	pn := "internal/printer/nodes.go"
 	register(&Property{ID: "C07", Run: runC07, Mutants: []Mutant{
+		{Name: ".wa printer: line-comment test forgets the '#' style", File: "internal/printer/printer.go", Old: "\treturn text[0] == '#' || len(text) > 1 && text[1] == '/'", New: "\treturn len(text) > 1 && text[1] == '/'", Expect: "hash-comment-is-line-comment"},
+		{Name: ".wz printer: line break after a comment decided from the second byte again", File: "internal/printer/w2printer/printer_comment.go", Old: "\t\tif isLineComment(last.Text) ||", New: "\t\tif len(last.Text) > 1 && last.Text[1] == '/' ||", Expect: "hash-comment-is-line-comment"},
+		{Name: ".wa printer: '#*' taken for a block comment", File: "internal/printer/printer.go", Old: "\treturn len(text) > 1 && text[0] == '/' && text[1] == '*'", New: "\treturn len(text) > 1 && text[1] == '*'", Expect: "hash-comment-is-line-comment"},
+		{Name: "plain import folded into an aliased import of the same path", File: "internal/ast/import.go", Old: "\tif importPath(next) != importPath(prev) || importName(next) != importName(prev) {\n\t\treturn false\n\t}", New: "\tif importPath(next) != importPath(prev) {\n\t\treturn false\n\t}\n\tif name := importName(prev); name != \"\" && name != importName(next) {\n\t\treturn false\n\t}", Expect: "import-dedup-exact"},
+		{Name: "commented duplicate import removed with its comment", File: "internal/ast/import.go", Old: "\treturn prev.(*ImportSpec).Comment == nil\n", New: "\treturn prev.(*ImportSpec).Comment == nil || next.(*ImportSpec).Comment != nil\n", Expect: "import-dedup-exact"},
 		{Name: "wa printer: var elided for untyped local declarations", File: pn, Old: " || !valueSpecsHaveType(d.Specs) {", New: " {", Expect: "keyword-elision-needs-type"},
 		{Name: "wa printer: spread call gets a trailing comma before the dots", File: pn, Old: "p.exprList(x.Lparen, x.Args, depth, 0, x.Ellipsis, false)", New: "p.exprList(x.Lparen, x.Args, depth, commaTerm, x.Rparen, false)", Expect: "printer-sibling-agreement"},
 		{Name: "wa printer: only string literals bypass the tabwriter", File: "internal/printer/printer.go", Old: "\t\t\tdata = x.Value\n\t\t\tisLit = true", New: "\t\t\tdata = x.Value\n\t\t\tisLit = x.Kind == token.STRING", Expect: "printer-origin-agreement"},
@@ -89,6 +94,8 @@ func runC07(c *Ctx) {
 	if fp := p.MustPkg("language-pairing", "internal/format"); fp != nil {
 		c07Pairing(c, p, fp)
 	}
+	c07ImportDedup(c, p, astp)
+	c07HashComments(c)
 	if wa, wz := p.MustPkg("printer-sibling-agreement", "internal/printer"), p.MustPkg("printer-sibling-agreement", "internal/printer/w2printer"); wa != nil && wz != nil {
 		c07SiblingAgreement(c, p, wa, wz)
 		c07KeywordElision(c, p, wa)
